@@ -7,6 +7,9 @@ from ..propsbase import *
 ASSUMPTIONS = ["bodies are drawn from every operator and assertion with operands valid and invalid for the body (out of range, failing "
                "assertion, inexact and zero division), guard depth 1-3, both guard values at every level, conditions of kind secret int, "
                "secret boolean and plain int; regions are entered through the real runtime.guarded()",
+               "nested regions whose INNER condition is a raw secret integer outside {0,1} (5, -2, 2, 3, -1) below valid outer conditions: with a "
+               "false outer guard, entering the inner region is dead code and must not raise (add_guard tolerates the value while errors are "
+               "suppressed); the entry itself (instruction genter) is judged like any other instruction of the dead region",
                "transparency is checked against the unguarded twin: the same program with the region markers removed"]
 PARTIAL = []
 LEVELS = "VSW"
@@ -48,7 +51,8 @@ def explore(ctx, extended=False, focus=None):
         correspond(ex, r, LEVELS)
         m = r.case.meta
         gv = tuple(m.get("gvals", ()))
-        ex.count(f"guards:{''.join(map(str, gv))}")
+        ex.count(f"guards:{''.join(map(str, gv))}" if m.get("bad_inner") is None else
+                 f"guards:non-boolean-inner-condition:{'under-false-outer' if 0 in gv[:m['bad_inner']] else 'under-true-outer'}")
         ex.distinct.add((m.get("op"), m.get("kinds"), gv, r.case.cfg["bl"], r.errcls))
         # (1) inert
         if r.case.cfg["ign"] == 0 and not r.ok and r.errcls in VALUE_ERRORS and r.errpos < len(r.case.instrs):
